@@ -2,7 +2,7 @@
    Only the property theorems; every proof is `exact <lemma>` (ProofsGraph.v, ProofsJT.v). *)
 From Coq Require Import List Bool Arith ZArith QArith Qcanon.
 From PV Require Import Base.Semiring Base.Ravel Base.FinSum Base.RefFactor Base.Reach Base.Graph
-  C14.UGraph C14.Model C14.Spec C14.ProofsGraph C14.ProofsJT C14.Run.
+  C14.UGraph C14.Model C14.Spec C14.ProofsGraph C14.ProofsJT C14.ProofsRIP C14.ProofsCliques C14.Run.
 Import ListNotations.
 Local Open Scope nat_scope.
 
@@ -158,6 +158,84 @@ Theorem C14_jt_partition : forall (R : csr) (card : var -> nat),
 Proof. exact jt_partition. Qed.
 Print Assumptions C14_jt_partition.
 
+(* ================================================================== the clique-tree CONSTRUCTION (all n)
+   Definitions (ProofsRIP.v / Model.v): clique_in E V C = C duplicate-free, inside V, pairwise adjacent;
+   max_cliques_of E V F = F lists exactly the maximal cliques of (V,E) (every member is a clique, every clique lies
+   in a member, no member lies in another); weight t = sum over the tree edges of |C_i n C_j| (pgmpy passes its
+   negative to nx.minimum_spanning_tree); max_weight_tree t = t is a spanning tree (is_tree) and no spanning tree on
+   the same cliques is heavier; wstar t = sum over the variables of (number of cliques holding it - 1). *)
+
+(* Jensen & Jensen, one direction: if the cliques have SOME junction tree, EVERY maximum-weight spanning tree of the
+   clique graph has the running-intersection property.  Any family of duplicate-free cliques. *)
+Theorem C14_max_weight_rip : forall t, cliques_nodup t ->
+  (exists E0, is_tree {| jcliques := jcliques t; jedges := E0 |} /\ rip {| jcliques := jcliques t; jedges := E0 |}) ->
+  max_weight_tree t -> rip t.
+Proof. exact max_weight_rip. Qed.
+Print Assumptions C14_max_weight_rip.
+
+(* the maximal cliques of a graph with a perfect elimination ordering have a junction tree (induction along the
+   ordering; every graph, no size bound) *)
+Theorem C14_chordal_clique_tree_exists : forall E order, NoDup order -> peo (Adj E) order ->
+  forall F, max_cliques_of E order F ->
+  exists E0, is_tree {| jcliques := F; jedges := E0 |} /\ rip {| jcliques := F; jedges := E0 |}.
+Proof. exact rip_tree_exists. Qed.
+Print Assumptions C14_chordal_clique_tree_exists.
+
+(* hence: maximal cliques of a chordal graph + ANY maximum-weight spanning tree of the clique graph = a connected
+   clique tree with the running-intersection property *)
+Theorem C14_chordal_max_weight_junction_tree : forall g t,
+  chordal g -> max_cliques_of (uedges g) (vertices g) (jcliques t) -> max_weight_tree t ->
+  is_tree t /\ rip t.
+Proof. exact chordal_max_weight_rip. Qed.
+Print Assumptions C14_chordal_max_weight_junction_tree.
+
+(* the model's maximal-clique enumerator is correct, and the checker applied to nx.find_cliques' listing is sound *)
+Theorem C14_all_max_cliques : forall g, max_cliques_of (uedges g) (vertices g) (all_max_cliques g).
+Proof. exact all_max_cliques_spec. Qed.
+Print Assumptions C14_all_max_cliques.
+Theorem C14_max_cliques_chk_sound : forall g F,
+  max_cliques_chk g F = true -> max_cliques_of (uedges g) (vertices g) F.
+Proof. exact max_cliques_chk_sound. Qed.
+Print Assumptions C14_max_cliques_chk_sound.
+
+(* no spanning tree weighs more than wstar, so weight >= wstar certifies maximum weight (the per-run certificate for
+   the output of nx.minimum_spanning_tree) *)
+Theorem C14_max_weight_certificate : forall t,
+  is_tree t -> cliques_nodup t -> wstar t <= weight t -> max_weight_tree t.
+Proof. exact wstar_certifies_max. Qed.
+Print Assumptions C14_max_weight_certificate.
+
+(* MarkovNetwork.to_junction_tree of the model, for EVERY Markov network whose factor scopes are cliques (check_model):
+   triangulate as coded (any heuristic's order), the maximal cliques of the result, any maximum-weight spanning tree:
+   a connected tree, covering every factor scope, with the running-intersection property ... *)
+Theorem C14_junction_tree_construction : forall g order inplace F E0 scopes,
+  noloop (uedges g) ->
+  (forall v, In v (endpoints (uedges g)) -> In v order) ->
+  let g' := triangulate_order g order inplace in
+  let t := {| jcliques := F; jedges := E0 |} in
+  max_cliques_of (uedges g') (vertices g') F ->
+  max_weight_tree t ->
+  (forall s, In s scopes -> clique_in (uedges g) (vertices g) s) ->
+  is_tree t /\ covers t scopes /\ rip t.
+Proof. exact junction_tree_construction. Qed.
+Print Assumptions C14_junction_tree_construction.
+
+(* ... whose clique potentials exist (every factor is used) and multiply to the product of all the factors: the
+   junction-tree joint equals the source joint, without a per-run certificate *)
+Theorem C14_junction_tree_joint : forall (R : csr) (card : var -> nat) g order inplace F E0 (fs : list (factor R)),
+  noloop (uedges g) ->
+  (forall v, In v (endpoints (uedges g)) -> In v order) ->
+  let g' := triangulate_order g order inplace in
+  let t := {| jcliques := F; jedges := E0 |} in
+  max_cliques_of (uedges g') (vertices g') F ->
+  max_weight_tree t ->
+  Forall (wf R card) fs ->
+  (forall f, In f fs -> incl (fvars f) (vertices g) /\ is_clique (uedges g) (fvars f)) ->
+  is_tree t /\ covers t (map fvars fs) /\ rip t /\
+  exists ps, jt_potentials R card F fs = Ok ps /\ same_joint R card ps fs.
+Proof. exact junction_tree_joint. Qed.
+Print Assumptions C14_junction_tree_joint.
+
 (* ================================================================== non-vacuity examples *)
 Local Open Scope nat_scope.
 (* a collider 0 -> 2 <- 1: the moral graph marries 0 and 1 *)
@@ -201,3 +279,21 @@ Definition c4iso : ugraph := {| unodes := [0; 1; 2; 3; 4]; uedges := [(0, 1); (1
 Example ex_c4iso : let g' := triangulate_order c4iso [4; 0; 1; 2; 3] false in
   chordal_chk c4iso = false /\ chordal_chk g' = true /\ In 4 (unodes g').
 Proof. vm_compute. repeat split; auto 10. Qed.
+
+(* the 4-cycle triangulated along 0,1,2,3: its maximal cliques {0,1,3},{1,2,3} are recognised, the one-edge tree is
+   a maximum-weight spanning tree by the certificate (weight 2 = wstar), hence a junction tree by the theorems *)
+Example ex_construction :
+  let g' := triangulate_order c4 [0; 1; 2; 3] false in
+  let t := {| jcliques := [[0; 1; 3]; [1; 2; 3]]; jedges := [(0, 1)] |} in
+  max_cliques_chk g' (jcliques t) = true /\ tree_chk t = true /\ weight t = 2 /\ wstar t = 2 /\ rip t.
+Proof.
+  intros g' t. assert (Hm : max_cliques_chk g' (jcliques t) = true) by (vm_compute; reflexivity).
+  assert (Ht : tree_chk t = true) by (vm_compute; reflexivity).
+  assert (Hw : weight t = 2) by (vm_compute; reflexivity). assert (Hs : wstar t = 2) by (vm_compute; reflexivity).
+  repeat split; try assumption.
+  apply (C14_chordal_max_weight_junction_tree g' t).
+  - apply C14_chordal_chk. vm_compute. reflexivity.
+  - apply C14_max_cliques_chk_sound. exact Hm.
+  - apply C14_max_weight_certificate; [apply C14_jt_structure_tree; exact Ht| |rewrite Hw, Hs; apply le_n].
+    intros c Hc. cbn in Hc. destruct Hc as [<-|[<-|[]]]; repeat constructor; simpl; intuition discriminate.
+Qed.
